@@ -755,6 +755,68 @@ def check_propagation(r, ctx):
         ctx.nontrivial([r["cls"], r["path"], field, r["replace"], mode])
 
 
+# ------------------------------------------------------------------------------------- facet: style sheets
+def _bool_fields(cls):
+    return sorted(f.name for f in dataclasses.fields(cls) if f.type in (bool, "bool") and f.name != "antialiased"
+                  and not f.name.startswith("_"))
+
+
+def _top_groups():
+    out = {}
+    for f in dataclasses.fields(MPDrawParams):
+        if inspect.isclass(f.type) and issubclass(f.type, BaseParam) and _bool_fields(f.type):
+            out[f.name] = f.type
+    return out
+
+
+def s_style_sheet(tier):
+    groups = _top_groups()
+    mention = st.sampled_from(sorted(groups)).flatmap(lambda g: st.tuples(
+        st.just(g), st.sampled_from(_bool_fields(groups[g])), st.booleans()).map(list))
+    return st.fixed_dictionaries({"tb": st.integers(0, 30), "len": st.integers(0, 40),
+                                  "antialiased": st.one_of(st.none(), st.booleans()),
+                                  "mentions": st.lists(mention, min_size=0, max_size=3, unique_by=lambda m: m[0])})
+
+
+def check_style_sheet(r, ctx):
+    """A (partial, hand-written) YAML style sheet sets the time window at the top level and mentions some nested groups
+    without repeating the window inside them: after loading, the window applies to every group."""
+    import os
+    import shutil
+    import tempfile
+    from omegaconf import OmegaConf
+    doc = {"time_begin": r["tb"], "time_end": r["tb"] + r["len"]}
+    if r["antialiased"] is not None:
+        doc["antialiased"] = r["antialiased"]
+    for g, f, v in r["mentions"]:
+        doc[g] = {f: v}
+    d = tempfile.mkdtemp(prefix="crverif-c19-")
+    try:
+        path = os.path.join(d, "style.yaml")
+        OmegaConf.save(OmegaConf.create(doc), path)
+        with warnings.catch_warnings():
+            warnings.simplefilter("ignore")
+            params = MPDrawParams.load(path)
+    finally:
+        shutil.rmtree(d, ignore_errors=True)
+    for path, g in walk(params):
+        where = ".".join(path) or "<top>"
+        if (g.time_begin, g.time_end) != (doc["time_begin"], doc["time_end"]):
+            raise Violation("style-sheet-window-not-propagated", "top-level window (%d, %d) of the file, but %s has "
+                            "(%r, %r); file %r" % (doc["time_begin"], doc["time_end"], where, g.time_begin, g.time_end,
+                                                   doc))
+        if "antialiased" in doc and g.antialiased != doc["antialiased"]:
+            raise Violation("style-sheet-antialiased-not-propagated", "%s.antialiased = %r; file %r" % (
+                where, g.antialiased, doc))
+    for g, f, v in r["mentions"]:
+        if getattr(getattr(params, g), f) is not v:
+            raise Violation("style-sheet-value-lost", "%s.%s = %r after loading %r" % (g, f, getattr(getattr(params, g),
+                                                                                              f), doc))
+    ctx.label("mentions-%d" % len(r["mentions"]))
+    if r["mentions"]:
+        ctx.nontrivial()
+
+
 # ------------------------------------------------------------------------------------- facets
 _TOT_RULE = ("generated scene x draw parameters (family flags flipped, numeric knobs, id filters, windows before / "
              "inside / after horizons, 5 ways of passing parameters, optional second frame); non-trivial = >= 3 "
@@ -774,6 +836,10 @@ FACETS = [
     Facet("lanelet-selection", check_lanelets, strategy=s_lanelets, quick=300, thorough=3000, timeout_quick=900,
           rule="1-5 lanelets x draw_ids (None / subsets / empty / foreign ids) x lanelet and intersection flags; "
                "non-trivial = proper non-empty subset selected"),
+    Facet("style-sheet", check_style_sheet, strategy=s_style_sheet, quick=600, thorough=20000,
+          rule="partial YAML style sheets (top-level window / antialiasing, 0-3 nested groups mentioned with one flag "
+               "each) loaded with MPDrawParams.load: window and antialiasing reach every group, mentioned flags are "
+               "kept; non-trivial = >= 1 nested group mentioned"),
     Facet("propagation", check_propagation, strategy=s_propagation, quick=5000, thorough=100000,
           rule="every BaseParam subclass x every group of its tree x every field declared at or below it x "
                "setattr / item assignment / constructor keyword, optionally after replacing a nested group; "
